@@ -39,7 +39,7 @@ type c11Op struct {
 }
 
 type c11Input struct {
-	Kind string  `json:"kind"` // script | conc
+	Kind string  `json:"kind"` // script | conc | rush
 	Ops  []c11Op `json:"ops,omitempty"`
 	// conc
 	Stay   int    `json:"stay,omitempty"`   // subscribers that stay (prompt consumers)
@@ -49,6 +49,11 @@ type c11Input struct {
 	Late   bool   `json:"late,omitempty"`   // one more subscriber that subscribes meanwhile
 	Spin   int    `json:"spin,omitempty"`   // upper bound of start delays (busy iterations)
 	Seed   uint64 `json:"seed,omitempty"`   // derives the delays
+	// rush
+	Subs   int    `json:"subs,omitempty"`   // subscribers (unbuffered channels, read only after Close returned)
+	Bcasts int    `json:"bcasts,omitempty"` // Broadcast calls (at most 10: nothing may block)
+	Mode   string `json:"mode,omitempty"`   // seq: one goroutine calls Subscribe.., Broadcast.., Close back to back; par: every call on its own goroutine, released together
+	Reps   int    `json:"reps,omitempty"`   // repetitions (stops at the first late delivery)
 }
 
 func c11Expand(ops []c11Op) []c11Op {
@@ -398,6 +403,42 @@ func c11RunConc(ctx *core.Ctx, in c11Input, kind string) error {
 	return nil
 }
 
+func c11RunRush(ctx *core.Ctx, in c11Input, kind string) error {
+	if in.Subs < 1 || in.Subs > 16 || in.Bcasts < 0 || in.Bcasts > 10 || in.Reps < 1 || in.Reps > 100000 ||
+		(in.Mode != "seq" && in.Mode != "par") {
+		return fmt.Errorf("rush: parameters out of range")
+	}
+	r := c11ExecRush(in)
+	c := hx.Case{Kind: kind, Input: hx.MustJSON(in),
+		Facts: map[string]any{"subs": in.Subs, "bcasts": in.Bcasts, "mode": in.Mode},
+		Class: fmt.Sprintf("rush subs=%d bcasts=%d mode=%s", in.Subs, in.Bcasts, in.Mode), Trivial: in.Bcasts == 0}
+	ctx.Sink.Count("kind=rush")
+	ctx.Sink.Count("in/rush mode=" + in.Mode)
+	if r.hang != "" {
+		c.Direct, c.Note = 2, "rush: "+r.hang
+		ctx.Sink.Add(c)
+		return nil
+	}
+	late := make([]string, len(r.late))
+	n := 0
+	for i, l := range r.late {
+		late[i] = hx.CoqInts(l)
+		n += len(l)
+	}
+	c.Observed = map[string]any{"trials": r.trials, "received_after_close": n}
+	c.Coq = fmt.Sprintf("CRush %d %d %s", in.Subs, in.Bcasts, hx.CoqList(late))
+	ctx.Sink.Extra["rush_trials"] = r.trials + intOf(ctx.Sink.Extra["rush_trials"])
+	ctx.Sink.Add(c)
+	return nil
+}
+
+func intOf(v any) int {
+	if n, ok := v.(int); ok {
+		return n
+	}
+	return 0
+}
+
 func c11Run(ctx *core.Ctx, in c11Input, kind string) error {
 	switch in.Kind {
 	case "script", "":
@@ -405,6 +446,8 @@ func c11Run(ctx *core.Ctx, in c11Input, kind string) error {
 		return c11RunScript(ctx, in, kind)
 	case "conc":
 		return c11RunConc(ctx, in, kind)
+	case "rush":
+		return c11RunRush(ctx, in, kind)
 	}
 	return fmt.Errorf("unknown kind %q", in.Kind)
 }
